@@ -9,6 +9,9 @@ import OFV.Proofs.C18Padding
 import OFV.Proofs.C18Cover
 import OFV.Proofs.C18Binary
 import OFV.Proofs.C18Tpb
+import OFV.Proofs.C18Partition
+import OFV.Proofs.C18Pauli
+import OFV.Proofs.C18Async
 
 namespace OFV.C18
 open OFV.Model.C18 OFV.Spec.C18 OFV.Proofs.C18
@@ -100,6 +103,38 @@ theorem binary_partition_spec (l : List Nat) (hnd : l.Nodup) (h2 : 2 ≤ l.lengt
 example : ∃ ys, binaryPartition [4, 7, 1, 9, 3] none = some ys ∧
     splitsAll [4, 7, 1, 9, 3] 2 (ys.map (fun p => [p.1, p.2])) = true :=
   binary_partition_spec _ (by decide) (by decide)
+
+/-- `_asynchronous_iter`, padded (general) branch, any number of iterators of any lengths: any two
+results of two different iterators occur together in some yield.  The index pattern `(j·k + l) mod L'`
+is a family of Latin squares because the padding `L'` (see `get_padding_spec`) has no divisor in
+`[2, K−1)`, so every difference of two row indices is invertible mod `L'`.
+Full statement (open): the same for `_asynchronous_iter` itself, i.e. also for the
+`_asynchronous_iter_small_lists` branch and the single-entry edge case (checked by the Spec oracle). -/
+theorem async_iter_covers_partial (lists : List (List (Pairing L))) :
+    asyncCovers lists (asyncPadded lists) = true :=
+  OFV.Proofs.C18Async.asyncPadded_covers lists
+
+/-- `partition_iterator(qubit_list, k)` (default number of iterations), every list length and every
+`1 ≤ k ≤ n`: every yield is a `k`-partition of the qubits and every `k`-subset is perfectly split (one
+element per part) by at least one yield.  Induction on `k` through the outer binary partition with the
+decreasing iteration budget: a subset that stays unsplit for `j` outer steps has pairwise distances that
+are multiples of `2^j`, which is exactly what the inner calls with `⌈log₂ n⌉ − 1 − j` iterations need. -/
+theorem partition_iterator_spec (l : List Nat) (hnd : l.Nodup) (k : Nat) (hk1 : 1 ≤ k) (hkn : k ≤ l.length) :
+    splitsAll l k (partitionIter l k none) = true :=
+  OFV.Proofs.C18Part.partitionIter_spec l hnd k hk1 hkn
+
+example : splitsAll [0, 1, 2, 3, 4, 5, 6] 3 (partitionIter [0, 1, 2, 3, 4, 5, 6] 3 none) = true :=
+  partition_iterator_spec _ (by decide) 3 (by decide) (by decide)
+
+/-- `pauli_string_iterator(num_qubits, max_word_size)`, all `1 ≤ k ≤ n`: the call succeeds, every
+yielded string has length `n` over `{I, X, Y, Z}`, and every Pauli word of weight `≤ k` (every choice of
+at most `k` qubits and of a letter `X, Y, Z` on each of them) is shown by at least one yielded string. -/
+theorem pauli_string_iterator_spec (n k : Nat) (hk1 : 1 ≤ k) (hkn : k ≤ n) :
+    ∃ strings, pauliStrings n k = some strings ∧ wordsCovered n k strings = true :=
+  OFV.Proofs.C18Pauli.pauliStrings_spec n k hk1 hkn
+
+example : ∃ strings, pauliStrings 5 2 = some strings ∧ wordsCovered 5 2 strings = true :=
+  pauli_string_iterator_spec 5 2 (by decide) (by decide)
 
 /-- `group_into_tensor_product_basis_sets`, for **every** sequence of shuffles that lists each current
 basis at least once (in particular every sequence of genuine permutations, whatever the seed): the
